@@ -50,6 +50,14 @@ def class_obj(mod, cname, name='cls'):
         if isinstance(st, _ast.FunctionDef) and any(isinstance(d, _ast.Name) and d.id == 'staticmethod' for d in st.decorator_list):
             static.add(st.name)
     o.__dict__['_static'] = static
+    # class-level constants (`dict_size = {..}`, a tuple of operator names ...) are attributes of every instance
+    for st in mod.cls(cname).body:
+        if isinstance(st, _ast.Assign) and len(st.targets) == 1 and isinstance(st.targets[0], _ast.Name) and st.targets[0].id not in static \
+                and isinstance(st.value, (_ast.Dict, _ast.List, _ast.Tuple, _ast.Set, _ast.Constant)):
+            try:
+                setattr(o, st.targets[0].id, Evaluator({}).ev(st.value))
+            except NotConst:
+                pass
     # an instance starts with the containers its constructor creates empty (`self.x = {}` as a statement of __init__ itself): memo tables, registries
     init = o.__dict__['_methods'].get('__init__')
     if init is not None and init.args.args:
